@@ -358,6 +358,6 @@ def strat_cycle(tier):
 
 
 PARTS = [
-    Part("rerun", run, strategy, {"quick": 1400, "thorough": 25000}, rule=RULE),
-    Part("cycle", run_cycle, strat_cycle, {"quick": 400, "thorough": 5000}, rule="a counter loop that fails in some iteration; explicit rerun of several tasks of the cycle; must be accepted, resume, converge"),
+    Part("rerun", run, strategy, {"quick": 1400, "thorough": 14000}, rule=RULE),
+    Part("cycle", run_cycle, strat_cycle, {"quick": 400, "thorough": 4000}, rule="a counter loop that fails in some iteration; explicit rerun of several tasks of the cycle; must be accepted, resume, converge"),
 ]
